@@ -1,3 +1,4 @@
+import re
 """C04 - typed decoding agrees with the RFC 8949 data model (DESIGN 5.4)."""
 from ..absint import Int, Adt, Atom, Slice, Tup, Ref, iv_and, iv_sub, iv_str, iv_min, iv_max, Abort, ty_range
 from .. import load, tables, mir, l1
@@ -769,4 +770,56 @@ _run_eoi = run
 def run(ctx):
     r = _run_eoi(ctx)
     t_impl_nil(ctx, load.program('core-full'))
+    return r
+
+
+# ---------------------------------------------------------------------------
+# T-IMPL.lossy: the value a built-in Decode impl builds from the decoded parts is not passed through a many-to-one std operation
+
+LOSSY_RE = re.compile(r'\b(saturating_\w+|wrapping_\w+|overflowing_\w+|\w*_lossy|clamp|unwrap_or_default|unwrap_or|rem_euclid|from_utf8_unchecked)\(')
+
+
+def t_impl_lossy(ctx, prog):
+    from .. import l1, l2
+    from . import summaries
+    ctx.rules_run.append('T-IMPL.lossy: the term every built-in Decode impl returns for the items of its own encoding contains no many-to-one std operation '
+                         '(saturating_* / wrapping_* / *_lossy / clamp / unwrap_or*): out-of-range parts must be an error, never a different value')
+    enc = dict((i['self_ty'], i) for i in prog.impls if i['trait'] == 'minicbor::encode::Encode' and i['krate'] == 'minicbor')
+    dec = dict((i['self_ty'], i) for i in prog.impls if i['trait'] == 'minicbor::decode::Decode' and i['krate'] == 'minicbor')
+    n = 0
+    for t in sorted(set(enc) & set(dec)):
+        e = summaries.summary(prog, enc[t]['trait_ref'] + '::encode', 'enc')
+        if e is None or e[0] == 'abort':
+            continue
+        where = mir.loc(dec[t]['sp'])
+        bad = None
+        for eo in e[1]:
+            if eo.kind != 'return' or l1.result_kind(eo.value) != 'Ok':
+                continue
+            ev = expand_reps(eo.st.events)
+            if ev is None:
+                continue
+            try:
+                r = l2.run_decode(prog, dec[t]['trait_ref'] + '::decode', ev, from_state=eo.st.clone())
+            except Abort:
+                continue      # T-IMPL.eoi / MIRROR report what cannot be interpreted
+            n += 1
+            for o in r[1]:
+                if o.kind == 'return' and l1.result_kind(o.value) == 'Ok' and o.value.fields:
+                    mm = LOSSY_RE.search(repr(o.value.fields[0]))
+                    if mm:
+                        bad = (mm.group(1), repr(o.value.fields[0])[:200])
+        if bad:
+            ctx.violation('T-IMPL.lossy', '%s|%s' % (t, bad[0]), 'Decode for %s builds its value with the many-to-one operation %s (%s): distinct inputs - among them parts no value of the type is encoded with - come back as the same value instead of an error' % (t, bad[0], bad[1]), where)
+        else:
+            ctx.ok('T-IMPL.lossy', t)
+    ctx.floor('T-IMPL.lossy', 'impl x encoding paths', n, 60)
+
+
+_run_nil = run
+
+
+def run(ctx):
+    r = _run_nil(ctx)
+    t_impl_lossy(ctx, load.program('core-full'))
     return r
